@@ -681,4 +681,4 @@ def walk_no_nested(node: ast.AST) -> Iterator[ast.AST]:
             continue
         first = False
         yield n
-        todo.extend(ast.iter_child_nodes(n))
+        todo.extend(reversed(list(ast.iter_child_nodes(n))))   # depth-first, source order
